@@ -163,7 +163,7 @@ func queryPart(name string, quick, thorough int, o kvOpts, jsonOnly bool) sup.Pa
 			return
 		}
 		defer sim.Close()
-		g := &kv.Gen{R: r, Keys: o.Keys, Colls: cfg.Colls, Bkts: 1, Hnd: 1}
+		g := &kv.Gen{R: r, Keys: o.Keys, Colls: cfg.Colls, Bkts: 1, Hnd: 1, Short: 6}
 		prof := o.Profile
 		if jsonOnly {
 			prof = prof.With(kv.KSetRaw, 0, kv.KAddRaw, 0, kv.KSetMeta, 0, kv.KIncr, 1)
